@@ -43,7 +43,8 @@ ASSUME TableShape ==
        /\ (NLBoundAir0[k] \div 1024) * 46875 + ((NLBoundAir0[k] % 1024) * 46875) \div 1024
             \in NLThreshMicro[k]..(NLThreshMicro[k] + 47)
        /\ NLThreshCenti[k] \in 0..99
-  /\ NLBoundAir0[58] = 1900544 /\ NLThreshMicro[58] = 87000000
+  \* row 58: NL(+-87) = 2 by definition, so the bound is the first count beyond 87 degrees
+  /\ NLBoundAir0[58] = 1900545 /\ NLBoundSurf0[58] = 7602177 /\ NLThreshMicro[58] = 87000000
 
 Fams == {1, 2, 3, 4, 5, 6, 7, 9}
 
